@@ -437,6 +437,9 @@ def _specific_yield(ctx, chk, rprog):
                    why="R computes Fs = pnorm(z_, 0, sd) inside the Campbell function")
             for pname in ("theta_s", "psi_s", "b"):
                 a = bind.get(pname)
+                if a is None:
+                    chk.indeterminate("C16.O2", where_of(cls_f, call), "the %s argument of the Campbell call is not passed positionally / by keyword (starred arguments?)" % pname)
+                    continue
                 v = sflow.def_value(a) if isinstance(a, ast.Name) else a
                 okp = isinstance(v, ast.Attribute) and dotted_name(v) == "self.%s" % pname
                 chk.ob("C16.O2", okp, where_of(cls_f, call), "%s argument = %s" % (pname, ast.unparse(v) if v is not None else ast.unparse(a)),
